@@ -147,7 +147,10 @@ type env struct {
 	bucket storage.BucketName
 	key    storage.ObjectKey
 	// direct mode
-	ddb *oneConnDB
+	ddb     *oneConnDB
+	dir     string
+	ndirect int
+	leaks   int
 }
 
 func (e *env) setup(dir string, p *program) {
@@ -179,13 +182,8 @@ func (e *env) setup(dir string, p *program) {
 	_, err = b.Storage.CompleteMultipartUpload(ctx, e.bucket, e.key, up.UploadId, nil, nil)
 	must(err)
 
-	raw, err := sql.Open("sqlite3", filepath.Join(dir, "direct.db")+"?_busy_timeout=5000")
-	must(err)
-	raw.SetMaxOpenConns(1)
-	raw.SetMaxIdleConns(1)
-	_, err = raw.Exec("CREATE TABLE IF NOT EXISTS t (x INTEGER)")
-	must(err)
-	e.ddb = &oneConnDB{db: raw}
+	e.dir = dir
+	e.openDirectDB()
 }
 
 func (e *env) inUse(mode string) int {
@@ -264,7 +262,13 @@ func readN(r io.Reader, want int) ([]byte, error) {
 }
 
 func (e *env) fresh(mode string, readOnly bool) bool {
-	ctx, cancel := context.WithTimeout(context.Background(), 20*time.Second)
+	timeout := 20 * time.Second
+	if mode == "direct" && e.inUse("direct") > 0 {
+		// the only connection of the pool is held by a leaked transaction:
+		// BeginTx can only block; do not wait the long timeout for it
+		timeout = 100 * time.Millisecond
+	}
+	ctx, cancel := context.WithTimeout(context.Background(), timeout)
 	defer cancel()
 	var db database.Database = e.sdb
 	if mode == "direct" {
@@ -275,6 +279,19 @@ func (e *env) fresh(mode string, readOnly bool) bool {
 		return tx.SqlTx().QueryRowContext(ctx, "SELECT 1").Scan(&one)
 	})
 	return err == nil
+}
+
+// openDirectDB (re)creates the one-connection pool of direct mode.  After a
+// leaked transaction the old pool is abandoned so that later programs can run.
+func (e *env) openDirectDB() {
+	e.ndirect++
+	raw, err := sql.Open("sqlite3", filepath.Join(e.dir, fmt.Sprintf("direct%d.db", e.ndirect))+"?_busy_timeout=5000")
+	must(err)
+	raw.SetMaxOpenConns(1)
+	raw.SetMaxIdleConns(1)
+	_, err = raw.Exec("CREATE TABLE IF NOT EXISTS t (x INTEGER)")
+	must(err)
+	e.ddb = &oneConnDB{db: raw}
 }
 
 func (e *env) runProgram(w *vtrace.Writer, p *program) {
@@ -337,8 +354,15 @@ func (e *env) runProgram(w *vtrace.Writer, p *program) {
 			do(step{Act: "Close", I: i + 1}, true)
 		}
 	}
-	w.Emit(map[string]any{"t": "end", "prog": p.Prog, "rb": rb(), "inuse": e.inUse(p.Mode),
+	inuse := e.inUse(p.Mode)
+	w.Emit(map[string]any{"t": "end", "prog": p.Prog, "rb": rb(), "inuse": inuse,
 		"fresh_read": e.fresh(p.Mode, true), "fresh_write": e.fresh(p.Mode, false)})
+	if inuse > 0 {
+		e.leaks++
+		if p.Mode == "direct" {
+			e.openDirectDB()
+		}
+	}
 }
 
 // concurrent: k goroutines each read their fake reader to the end and close
@@ -414,10 +438,14 @@ func main() {
 		}
 		e.runProgram(w, &p)
 		nprog++
+		if e.leaks >= 200 {
+			fmt.Printf("txreaders: aborted after %d programs that leaked their transaction\n", e.leaks)
+			break
+		}
 	}
 	must(sc.Err())
 	must(w.Close())
-	if e != nil {
+	if e != nil && e.leaks == 0 {
 		e.built.Close()
 		e.ddb.Close()
 	}
